@@ -14,6 +14,12 @@ def run(chk):
     spec = dict(dtypes=[np.float64, np.complex128], anns=[(), ("SelfAdjoint",), ("PSD",), ("Unitary",)])
     rp = run_rules(chk, "C02", ["transpose", "adjoint"], default_spec=spec)
     methods.run_methods(chk, "C02", which=("_rmatmat", "__rmatmul__"))
+    # the transpose / adjoint rules return a SelfAdjoint operator itself: for a slice that label must mean 'rows and columns select the same index sequence'
+    from props import c05
+    for anns in (("SelfAdjoint",), ("PSD",)):
+        for ob in c05.sliced_one(anns, "index", "index", prop="C02"):
+            ob.engine = "IDX"
+            chk.add(ob)
     # Sliced._rmatmat lives in the index domain (symbolic slices / index arrays): same obligations as C20, left product only
     import itertools
     from props import c20
